@@ -224,6 +224,26 @@ class SubstModel:
             self.probes['symbol_stands_for_statement'] = self.probes.get('symbol_stands_for_statement', 0) + 1
             self.shape.append(('stmt', len(vals), name.lower() in ('nop', 'ldi')))
             return 'keep', [line]
+        if k == 'use_local_label':
+            # a symbol standing for a LOCAL label's name, as the first token of its line (`.S:`) and in an operand (`.S`)
+            name = op['name']
+            if name not in self.symbols or self.mute:
+                return None
+            try:
+                final = self.expand(name).strip()
+            except Reject:
+                return 'probe', [f'.{name}:']
+            if not re.fullmatch(r'lbl\d+', final):
+                return None
+            g = f'glb{len(self.shape)}'
+            if g in self.consts or g in self.symbols:
+                return None
+            addr = len(self.out)
+            self.consts[g] = addr
+            self.out += list(addr.to_bytes(2, 'big'))
+            self.probes['symbol_stands_for_local_label_name'] = self.probes.get('symbol_stands_for_local_label_name', 0) + 1
+            self.shape.append(('local-label', 2, final))
+            return 'keep', [f'{g}:', f'.{name}:', f'  .2byte .{name}']
         if k == 'use_label':
             # a symbol standing for a label's name on a label-only line
             name = op['name']
@@ -458,7 +478,7 @@ def make_machine(stats, box):
             self.lines = []
 
         @initialize(pre=sym_init, cli=st.dictionaries(st.sampled_from(NAMES[3:]), st.one_of(
-            lit, st.just(''), st.sampled_from(['$FC', '$F77', '$1F', '$a + 1'])), max_size=2),
+            lit, st.just(''), st.sampled_from(['$FC', '$F77', '$1F', '$a + 1', '7,8', '1, 2', '$11,$22'])), max_size=2),
             sseed=st.one_of(st.none(), st.integers(min_value=1, max_value=1 << 30)))
         def init(self, pre, cli, sseed):
             cli = {k: v for k, v in cli.items() if k not in pre}
@@ -592,6 +612,15 @@ def make_machine(stats, box):
             self.do({'op': 'use_label', 'name': n}, check=False)
             if len(self.case['ops']) > before:
                 self.do({'op': 'use', 'text': f'lbl{k}', 'directive': '.2byte'})
+            else:
+                self.do({'op': 'use_local_label', 'name': n})
+
+        @rule(n=name, k=st.integers(min_value=4, max_value=6))
+        def idiom_local_label_symbol(self, n, k):
+            """#define S lbl<k> / glb: / .S: / .2byte .S   (S names a local label; `.S` is the first token of its line)"""
+            if n not in self.model.symbols:
+                self.do({'op': 'define', 'name': n, 'value': f'lbl{k}'}, check=False)
+            self.do({'op': 'use_local_label', 'name': n})
 
         @rule(n=name, byte=st.sampled_from([0xB5, 0xE9, 0xD6, 0xFF]), where=st.sampled_from(['before', 'after', 'inside']))
         def legacy_code_page_identifier(self, n, byte, where):
